@@ -284,7 +284,8 @@ def oracle_model(ctx, case, stats):
     if l["k"] == "act":
       fam = "act:" + l["q"]["t"]
       if l["q"]["t"] == "relu" and l["q"]["bits"] == 1:
-        fam = "act:relu_1bit"
+        # quantized_relu(1,1) = {0,1} is handled by qtools as binary(0,1)
+        fam = "act:relu_1bit" if l["q"]["int"] != 1 else "act:relu_binary01"
       if r is None:
         raise core.HarnessError("layer %s missing from the qtools report" % name)
       for clause, _, text in T.violations(r["output_quantizer"], outs[i]):
@@ -745,7 +746,7 @@ def run(ctx):
   st_model, st_aa = case_strategy(quick)
   # one interleaved stream (2 model cases : 1 estimator case) so that a run cut
   # short by the time budget has still covered both families
-  n = (1200 if quick else 32000) // ctx.n + 1
+  n = (960 if quick else 32000) // ctx.n + 1
   strat = st.one_of(st_model, st_model, st_aa)
   core.hyp_run(ctx, strat, lambda c: oracle(ctx, c), n, name="c18")
 
